@@ -488,7 +488,7 @@ def explore(ctx: Ctx):
     cases = []
 
     def add(algo, rws, normalize, clip_value, cv, ce, grad):
-        if normalize and np.std([x[0] for x in rws]) < 1e-3:
+        if normalize and np.std([x[0] for x in rws]) < 1e-6:
             ctx.guard("skipped-zero-variance-advantages")  # (A-mean)/(0+eps) is undefined by the statement and ill-conditioned
             return
         cases.append(dict(algo=algo, act=[(i + j) % A_N for j, i in enumerate(range(len(rws)))], adv=[x[0] for x in rws], ratio=[x[1] for x in rws],
@@ -508,6 +508,11 @@ def explore(ctx: Ctx):
             for cvf in (False, True):
                 for cv, ce in (coefs if thorough else coefs[:2]):
                     add("PPO", [r1, r2], nz, cvf, cv, ce, False)
+    # advantages of a small scale (rewards ~1e-3): normalisation must still bring them to unit scale
+    for sc in (1e-2, 1e-3, 1e-4):
+        for r1, r2 in itertools.product(rows2[::7], repeat=2):
+            for algo in ("PPO", "A2C", "REINFORCE"):
+                add(algo, [(r1[0] * sc,) + r1[1:], (r2[0] * sc,) + r2[1:]], True, False, 0.5, 0.0, False)
     # gradient sub-grid B=2 and B=3
     rows_g = [(a, r, v, ret) for a in (-2.0, 0.5) for r in (0.5, 0.81, 1.21, 2.0) for (v, ret) in ((0.1, 1.0), (0.5, -1.0))]
     for r1, r2 in itertools.product(rows_g, repeat=2):
